@@ -82,7 +82,7 @@ def handle : List String → String
     | some g, some tip, some s, some e, some d, some gm, some dl, some x =>
       showRes (match calcView { g := g, tip := tip } s e d gm dl x with
         | .ok (l, false) => .ok l
-        | .ok (_, true) => .error .startNotLinear
+        | .ok (_, true) => .error .unsupported
         | .error e => .error e)
     | _, _, _, _, _, _, _, _ => "bad-op"
   | ["log", g, tip, s, e, d, lv, lim, x] =>
